@@ -25,7 +25,7 @@ class C18(FprCheck):
     props_modules = ["E3fpVerif.Props.C18"]
     rule = ("molecules with explicit hydrogens (every embedded SMILES molecule and the shipped SDF conformers) and salts / "
             "hydrates with unbonded heavy atoms: hydrogens and (exclusion on) floating atoms displaced by seeded random "
-            "vectors up to 3 A; floating atoms deleted with RWMol.RemoveAtom; exclusion off: floating atoms must appear as "
+            "vectors up to 3 A, by up to 1e6 A, exactly onto another atom or the origin, or to NaN / inf coordinates (also through fprints_dict_from_mol); floating atoms deleted with RWMol.RemoveAtom; exclusion off: floating atoms must appear as "
             "level-0 centres. Non-trivial: >= 2 levels and at least one displaced/deleted atom; distinct by case.")
 
     def gen_cases(self):
@@ -59,12 +59,15 @@ class C18(FprCheck):
             yield base
             hs = hydrogens(mol)
             fl = floating_atoms(mol)
+            # "all displacements": a few angstroms, a million of them, exactly onto another atom, onto the origin, and coordinates
+            # that are not numbers (NaN / inf, as a reader leaves them when a file carries none for these atoms)
+            mode = rng.choice(["near", "near", "far", "onto", "origin", "nonfinite", "nonfinite"])
             if hs:
-                self.count("displace-H")
-                yield dict(base, t="displace", tr={"displace": {"seed": rng.randrange(10 ** 6), "atoms": rng.sample(hs, max(1, len(hs) // 2))}})
+                self.count("displace-H:" + mode)
+                yield dict(base, t="displace", tr={"displace": {"seed": rng.randrange(10 ** 6), "atoms": rng.sample(hs, max(1, len(hs) // 2)), "mode": mode}})
             if fl:
-                self.count("displace-floating")
-                yield dict(base, t="displace", tr={"displace": {"seed": rng.randrange(10 ** 6), "atoms": fl}})
+                self.count("displace-floating:" + mode)
+                yield dict(base, t="displace", tr={"displace": {"seed": rng.randrange(10 ** 6), "atoms": fl, "mode": mode}})
                 self.count("delete-floating")
                 yield dict(base, t="delete", delete=fl)
 
@@ -116,9 +119,26 @@ class C18(FprCheck):
             ignored = set(hydrogens(mol0)) | (set(fl) if (o["exclude_floating"] and nheavy > 1) else set())
             if not moved <= ignored:
                 return None            # floating atoms count when exclusion is off
+            which = "hydrogens" if moved <= set(hydrogens(mol0)) else "floating atoms"
             if observable(a["ok"]) != observable(b["ok"]):
-                which = "hydrogens" if moved <= set(hydrogens(mol0)) else "floating atoms"
                 return {"key": "ignored-atom-position-matters:" + which, "what": "displacing %s %s changed the fingerprint" % (which, sorted(moved))}
+            # the same through the entry point users call (one fingerprint per conformer, whatever the ignored atoms' coordinates)
+            from e3fp.fingerprint.generate import fprints_dict_from_mol
+            from harness.fpgen import dump_fp
+            mol1, _ = build(dict(base, tr={"displace": dict(case["tr"]["displace"], atoms=[])}))    # the same one-conformer twin, nothing moved
+            res = []
+            for m_ in (mol1, mol):
+                try:
+                    d = fprints_dict_from_mol(m_, first=-1, **o)
+                    res.append({k: [dump_fp(f) for f in v] for k, v in d.items()})
+                except Exception as e:  # noqa: BLE001
+                    res.append("raised " + type(e).__name__)
+            if isinstance(res[0], dict) and res[0] and res[1] != res[0]:
+                n1 = {k: len(v) for k, v in res[0].items()}
+                n2 = {k: len(v) for k, v in res[1].items()} if isinstance(res[1], dict) else res[1]
+                return {"key": "ignored-atom-position-matters:entry-point:" + which,
+                        "what": "fprints_dict_from_mol: displacing %s %s (%s) changed the result (fingerprints per level %s -> %s)" % (
+                            which, sorted(moved), case["tr"]["displace"].get("mode"), n1, n2)}
             return None
         if case["t"] == "delete":
             if not o["exclude_floating"] or bonded_heavy < 1 or nheavy <= 1:
